@@ -151,7 +151,7 @@ def main():
         st, msg = res[v["id"]]
         if st in ("MISS", "FALSE-ALARM"):
             bad += 1
-        if not a.quiet or st in ("MISS", "FALSE-ALARM"):
+        if not a.quiet or st != "ok":
             print("%-12s %s %-44s %s" % (st, v["property"], v["id"], msg))
     n = len(cat)
     print("selftest: %d variants, %d ok, %d skipped, %d wrong" % (n, sum(1 for s, _ in res.values() if s == "ok"), sum(1 for s, _ in res.values() if s == "skip"), bad))
